@@ -159,3 +159,13 @@ def run(ctx):
         hsw = switches(h)
         Tc, Fc, _ = call_bool_edges(h, "pgcat::server::Server::in_copy_mode", switches_cache=hsw)
         r5.check(bool(Fc), "release-reads-copy-mode", "the release test in Client::handle reads Server::in_copy_mode()", "Client::handle no longer reads in_copy_mode() (rule needs re-anchoring)")
+
+    # ---------------- R6 the checkout path cannot lock itself up (round 6)
+    r6 = ctx.rule("C04-R6", "clients beyond capacity wait and are served: no pgcat function takes a lock of a shared structure (ban list, pool tables, cancel map, statistics) again while it still holds a named guard of the same lock "
+                  "- parking_lot locks are not re-entrant, `read()` followed by `write()` blocks the thread for ever and the queued writer blocks every later checkout", floor=1)
+    from common import reentrant_lock_findings
+    found, nguards = reentrant_lock_findings(F)
+    for fn, fld, w1, w2, kinds in found:
+        r6.fail("reentrant-lock:%s@%s" % (fld, fn.replace("::{closure#0}", "").split("::")[-1]), "%s takes `%s.%s()` while its guard from `%s.%s()` is still alive: the thread waits for itself (in try_unban: once every replica of a shard is banned - "
+                "which plain saturation produces - the next checkout hangs, and with it everybody who touches the ban list)" % (fn.split("::")[-1], fld, kinds[1], fld, kinds[0]), w2)
+    r6.check(True, "guards-scanned", "%d named lock guards scanned, %d re-acquisitions under a live guard" % (nguards, len(found)), "")
